@@ -39,13 +39,13 @@ PROPS = {
         "assumptions": ["service contract: an answer reflects every event published before it (the simulated service answers from its state at answer time)", "Go map iteration order is not modelled: histories avoid one connection holding two aliases of one cached resource; a disagreement must persist over 5 runs", "histories with throttles are run with monitors only (throttle slot order is a real race)"],
     },
     "C02": {
-        "suites": [("gw", "refs"), ("gw", "churn")],
+        "suites": [("gw", "refs"), ("gw", "churn"), ("gw", "order")],
         "theorems_carry": "every state event the cache emits is applicable: change only on models, add/remove only on collections, index within the cached collection's bounds",
         "correspondence_only": "the reference-graph half (no dangling reference, no stray event): lockstep of the collector model (tryDelete/Unsend/Dispose/populateResources mirrored as they are) and the reference-client monitor. Known findings D7, D9, D16, D18.",
         "assumptions": ["reference client keeps resources it still retains when they are delivered again", "resources delivered by a get are kept while other requests of that client are pending"],
     },
     "C03": {
-        "suites": [("gw", "refs"), ("gw", "reset"), ("gw", "access")],
+        "suites": [("gw", "order"), ("gw", "refs"), ("gw", "reset"), ("gw", "access")],
         "theorems_carry": "queue discipline: processed ++ waiting = received for every interleaving of events, queueing starts and flushes (incl. re-queueing in the middle of a flush); mailbox FIFO and lock exclusion; what is delivered after the snapshot is a contiguous suffix of the emitted stream",
         "correspondence_only": "that the gateway's queues are used as the abstract discipline says: lockstep + sequence-number monitor on custom events",
         "assumptions": ["abstract queue FSM mirrors Subscription.Event/queueEvents/unqueueEvents"],
